@@ -50,18 +50,26 @@ enum {O_Put, O_PutPrev, O_PutIfAbsent, O_GetOrPut, O_PutOrRemove, O_PutAtFront, 
       O_GetAndMoveToFront, O_GetAndMoveToBack, O_Remove, O_RemoveGet, O_RemoveFirst, O_RemoveLast,
       O_MoveToFront, O_MoveToBack, O_MoveToBefore, O_MoveToBehind, O_MoveToPosition,
       O_SortByKey, O_SortByValue, O_SortSelf, O_Reposition, O_Swap, O_Clear, O_Destroy, O_AssignFrom, O_AssignTo, O_PutAll, O_MoveToTable,
-      O_RemoveAll, O_Intersect, O_EnsureSize, O_ShrinkToFit, O_SetAutoSort,
+      O_RemoveAll, O_Intersect, O_EnsureSize, O_ShrinkToFit, O_SetAutoSort, O_EnsureCanPut,
       O_Get, O_IndexOfKey, O_IndexOfValue, O_GetKeyAt, O_GetValueAt, O_GetFirstKey, O_GetLastKey, O_GetKeyBefore, O_GetKeyAfter, O_ContainsValue, O_NumItems, O_IsEqualTo,
       O_ItNew, O_ItNewAt, O_ItAdv, O_ItRet, O_ItFlip, O_ItDel, O_ItCopy, NUM_OPS};
 static const char * OPN[NUM_OPS] = {"Put", "PutPrev", "PutIfAbsent", "GetOrPut", "PutOrRemove", "PutAtFront", "PutAtBack", "PutBefore", "PutBehind", "PutAtPosition",
       "GetAndMoveToFront", "GetAndMoveToBack", "Remove", "RemoveGet", "RemoveFirst", "RemoveLast",
       "MoveToFront", "MoveToBack", "MoveToBefore", "MoveToBehind", "MoveToPosition",
       "SortByKey", "SortByValue", "SortSelf", "Reposition", "Swap", "Clear", "Destroy", "AssignFrom", "AssignTo", "PutAll", "MoveToTable",
-      "RemoveAll", "Intersect", "EnsureSize", "ShrinkToFit", "SetAutoSort",
+      "RemoveAll", "Intersect", "EnsureSize", "ShrinkToFit", "SetAutoSort", "EnsureCanPut",
       "Get", "IndexOfKey", "IndexOfValue", "GetKeyAt", "GetValueAt", "GetFirstKey", "GetLastKey", "GetKeyBefore", "GetKeyAfter", "ContainsValue", "NumItems", "IsEqualTo",
       "ItNew", "ItNewAt", "ItAdv", "ItRet", "ItFlip", "ItDel", "ItCopy"};
 static int OpByName(const std::string & s) {for (int i=0; i<NUM_OPS; i++) if (s == OPN[i]) return i; return -1;}
 
+// boundary values of the uint32 argument type, coded as negative numbers by the specification (TLC integers are 32-bit signed)
+static bool IsBig(long c) {return c < 0;}
+static uint32 Big(long c) {return (c == -1) ? 0xFFFFFFFFu : ((c == -2) ? 0xFFFFFFFEu : ((c == -3) ? 0x80000000u : 0x7FFFFFFFu));}
+#if defined(__SANITIZE_ADDRESS__)
+static const bool HUGE_ALLOC_OK = true;     // ASan refuses allocations over max_allocation_size_mb and returns NULL
+#else
+static const bool HUGE_ALLOC_OK = false;    // a plain build would really try to get (and initialise) tens of GB: the huge capacity requests are not made
+#endif
 static long St(const status_t & r) {return r.IsOK() ? 1 : ((r == B_DATA_NOT_FOUND) ? 0 : ((r == B_BAD_ARGUMENT) ? -1 : NA));}
 
 // Reposition() exists in the sorting classes only
@@ -113,6 +121,7 @@ template<class TableT, class HashF> struct Rig
    }
 
    static long Neg0(long k) {return (k < 0) ? 0 : k;}
+   static uint32 JunkFlags(long slot) {return (slot == 2) ? 0xFFFFFFFCu : 0u;}     // the flags parameter is a bit chord: iterators in slot 2 get every undefined bit set
 
    long Exec(int op, long a, long b, long c)
    {
@@ -127,7 +136,7 @@ template<class TableT, class HashF> struct Rig
          case O_PutAtBack: return t.PutAtBack(ka, (int) b).IsOK() ? 1 : NA;
          case O_PutBefore: {const int kb = RK(b); return t.PutBefore(ka, kb, (int) c).IsOK() ? 1 : NA;}
          case O_PutBehind: {const int kb = RK(b); return t.PutBehind(ka, kb, (int) c).IsOK() ? 1 : NA;}
-         case O_PutAtPosition: return t.PutAtPosition(ka, (uint32)(p0+b), (int) c).IsOK() ? 1 : NA;
+         case O_PutAtPosition: return t.PutAtPosition(ka, IsBig(b) ? Big(b) : (uint32)(p0+b), (int) c).IsOK() ? 1 : NA;
          case O_GetAndMoveToFront: {int v = 0; const status_t r = t.GetAndMoveToFront(ka, v); return r.IsOK() ? v : ((r == B_DATA_NOT_FOUND) ? 0 : NA);}
          case O_GetAndMoveToBack:  {int v = 0; const status_t r = t.GetAndMoveToBack(ka, v);  return r.IsOK() ? v : ((r == B_DATA_NOT_FOUND) ? 0 : NA);}
          case O_Remove: return St(t.Remove(ka));
@@ -138,7 +147,7 @@ template<class TableT, class HashF> struct Rig
          case O_MoveToBack: return St(t.MoveToBack(ka));
          case O_MoveToBefore: return St(t.MoveToBefore(ka, RK(b)));
          case O_MoveToBehind: return St(t.MoveToBehind(ka, RK(b)));
-         case O_MoveToPosition: return St(t.MoveToPosition(ka, (uint32)(p0+b)));
+         case O_MoveToPosition: return St(t.MoveToPosition(ka, IsBig(b) ? Big(b) : (uint32)(p0+b)));
          case O_SortByKey: t.SortByKey(); return 0;
          case O_SortByValue: t.SortByValue(); return 0;
          case O_SortSelf: t.Sort(); return 0;
@@ -153,13 +162,25 @@ template<class TableT, class HashF> struct Rig
          case O_MoveToTable: return St(t.MoveToTable(ka, o));
          case O_RemoveAll: return (long) t.Remove(o);
          case O_Intersect: return (long) t.Intersect(o);
-         case O_EnsureSize: {const status_t r = t.EnsureSize((uint32)(p0+a), b != 0); if ((r.IsOK())&&(t.GetNumAllocatedItemSlots() < (uint32)(p0+a))) err = "EnsureSize(n) returned OK but fewer than n slots are allocated"; return r.IsOK() ? 1 : NA;}
-         case O_ShrinkToFit: {const status_t r = t.ShrinkToFit((uint32) a); if ((r.IsOK())&&(t.GetNumItems()+a > 0)&&(t.GetNumAllocatedItemSlots() != t.GetNumItems()+(uint32) a)) err = "ShrinkToFit(n) returned OK but slots != items+n"; return r.IsOK() ? 1 : NA;}
+         case O_EnsureSize: case O_ShrinkToFit: case O_EnsureCanPut: {
+            if (IsBig(a)) {
+               // a huge request: B_NO_ERROR (nothing allocated yet), B_OUT_OF_MEMORY or B_RESOURCE_LIMIT, contents untouched (compared by the caller); the capacity is put back
+               if (!HUGE_ALLOC_OK) return 2;
+               const uint32 before = t.GetNumAllocatedItemSlots();
+               const status_t r = (op == O_EnsureSize) ? t.EnsureSize(Big(a), b != 0) : ((op == O_ShrinkToFit) ? t.ShrinkToFit(Big(a)) : t.EnsureCanPut(Big(a)));
+               if (t.GetNumAllocatedItemSlots() != before) {if (r.IsError()) err = "a failed capacity request changed GetNumAllocatedItemSlots()"; (void) t.EnsureSize(before, true);}
+               return ((r.IsOK())||(r == B_OUT_OF_MEMORY)||(r == B_RESOURCE_LIMIT)) ? 2 : NA;
+            }
+            if (op == O_EnsureSize) {const status_t r = t.EnsureSize((uint32)(p0+a), b != 0); if ((r.IsOK())&&(t.GetNumAllocatedItemSlots() < (uint32)(p0+a))) err = "EnsureSize(n) returned OK but fewer than n slots are allocated"; return r.IsOK() ? 1 : NA;}
+            if (op == O_ShrinkToFit) {const status_t r = t.ShrinkToFit((uint32) a); if ((r.IsOK())&&(t.GetNumItems()+a > 0)&&(t.GetNumAllocatedItemSlots() != t.GetNumItems()+(uint32) a)) err = "ShrinkToFit(n) returned OK but slots != items+n"; return r.IsOK() ? 1 : NA;}
+            const status_t r = t.EnsureCanPut((uint32) a); if ((r.IsOK())&&(t.GetNumAllocatedItemSlots() < t.GetNumItems()+(uint32) a)) err = "EnsureCanPut(n) returned OK but there is no room for n more"; return r.IsOK() ? 1 : NA;}
          case O_Get: {const int * v = t.Get(ka); const long r = t.GetWithDefault(ka); if ((v != NULL) != t.ContainsKey(ka)) err = "Get / ContainsKey disagree"; if ((v)&&(*v != r)) err = "Get / GetWithDefault disagree"; return r;}
          case O_IndexOfKey: {const long r = t.IndexOfKey(ka); return (r >= 0) ? (r-p0) : r;}
          case O_IndexOfValue: {const long r = t.IndexOfValue((int) a, b != 0); return (r >= 0) ? (r-p0) : r;}
-         case O_GetKeyAt: {const int * k = t.GetKeyAt((uint32)(p0+a)); return k ? MK(*k) : 0;}
-         case O_GetValueAt: {const int * v = t.GetValueAt((uint32)(p0+a)); return v ? *v : 0;}
+         case O_GetKeyAt: {const uint32 ix = IsBig(a) ? Big(a) : (uint32)(p0+a); const int * k = t.GetKeyAt(ix); int k2 = 0; const status_t r2 = t.GetKeyAt(ix, k2);
+                           if (((k != NULL) != t.IsIndexValid(ix))||((k != NULL) != r2.IsOK())||((k)&&(*k != k2))||((k)&&(t.GetKeyAtWithDefault(ix) != *k))||((!k)&&(r2 != B_BAD_ARGUMENT))) err = "GetKeyAt / GetKeyAt(retKey) / IsIndexValid / GetKeyAtWithDefault disagree";
+                           return k ? MK(*k) : 0;}
+         case O_GetValueAt: {const uint32 ix = IsBig(a) ? Big(a) : (uint32)(p0+a); const int * v = t.GetValueAt(ix); if ((v != NULL) != t.IsIndexValid(ix)) err = "GetValueAt / IsIndexValid disagree"; if (t.GetValueAtWithDefault(ix, 0) != (v ? *v : 0)) err = "GetValueAt / GetValueAtWithDefault disagree"; return v ? *v : 0;}
          case O_GetFirstKey: {const int * k = t.GetFirstKey(); return k ? MK(*k) : 0;}
          case O_GetLastKey: {const int * k = t.GetLastKey(); return k ? MK((int) Neg0(*k)) : 0;}
          case O_GetKeyBefore: {const int * k = t.GetKeyBefore(ka); return k ? MK((int) Neg0(*k)) : 0;}
@@ -167,10 +188,10 @@ template<class TableT, class HashF> struct Rig
          case O_ContainsValue: return t.ContainsValue((int) a) ? 1 : 0;
          case O_NumItems: return ((long) t.GetNumItems())-p0;
          case O_IsEqualTo: return t.IsEqualTo(o, a != 0) ? 1 : 0;
-         case O_ItNew: {It * n = new It(t, (b != 0) ? HTIT_FLAG_BACKWARDS : 0); it[a-1] = n; itBwd[a-1] = (b != 0);
+         case O_ItNew: {It * n = new It(t, ((b != 0) ? HTIT_FLAG_BACKWARDS : 0)|JunkFlags(a)); it[a-1] = n; itBwd[a-1] = (b != 0);
                         if ((b == 0)&&(blk[0])) for (uint32 i=0; i<P; i++) {if ((!n->HasData())||(n->GetKey() != ((int) i)-((int) P))) {err = "forward iterator does not walk the prefill block in order"; break;} (*n)++;}
                         return 0;}
-         case O_ItNewAt: it[a-1] = new It(t, RK(b), (c != 0) ? HTIT_FLAG_BACKWARDS : 0); itBwd[a-1] = (c != 0); return 0;
+         case O_ItNewAt: it[a-1] = new It(t, RK(b), ((c != 0) ? HTIT_FLAG_BACKWARDS : 0)|JunkFlags(a)); itBwd[a-1] = (c != 0); return 0;
          case O_ItAdv: (*it[a-1])++; return 0;
          case O_ItRet: (*it[a-1])--; itBwd[a-1] = true; return 0;
          case O_ItFlip: it[a-1]->SetBackwards(!it[a-1]->IsBackwards()); itBwd[a-1] = true; return 0;
@@ -366,12 +387,12 @@ static bool RelinkKind(int op, bool sorted)
 
 static const int PLAIN_OPS[] = {O_Put, O_Put, O_Put, O_PutPrev, O_PutIfAbsent, O_GetOrPut, O_PutOrRemove, O_PutAtFront, O_PutAtBack, O_PutBefore, O_PutBehind, O_PutAtPosition,
       O_GetAndMoveToFront, O_GetAndMoveToBack, O_Remove, O_Remove, O_RemoveGet, O_RemoveFirst, O_RemoveLast, O_MoveToFront, O_MoveToBack, O_MoveToBefore, O_MoveToBehind, O_MoveToPosition,
-      O_SortByKey, O_SortByValue, O_SortSelf, O_Swap, O_Clear, O_Destroy, O_AssignFrom, O_AssignTo, O_PutAll, O_MoveToTable, O_RemoveAll, O_Intersect, O_EnsureSize, O_ShrinkToFit,
+      O_SortByKey, O_SortByValue, O_SortSelf, O_Swap, O_Clear, O_Destroy, O_AssignFrom, O_AssignTo, O_PutAll, O_MoveToTable, O_RemoveAll, O_Intersect, O_EnsureSize, O_ShrinkToFit, O_EnsureCanPut,
       O_Get, O_IndexOfKey, O_IndexOfValue, O_GetKeyAt, O_GetValueAt, O_GetFirstKey, O_GetLastKey, O_GetKeyBefore, O_GetKeyAfter, O_ContainsValue, O_NumItems, O_IsEqualTo,
       O_ItNew, O_ItNew, O_ItNewAt, O_ItAdv, O_ItAdv, O_ItAdv, O_ItAdv, O_ItRet, O_ItFlip, O_ItDel, O_ItCopy};
 static const int SORTED_OPS[] = {O_Put, O_Put, O_Put, O_Put, O_PutPrev, O_PutIfAbsent, O_GetOrPut, O_PutOrRemove, O_Remove, O_Remove, O_RemoveGet, O_RemoveFirst, O_RemoveLast,
       O_SortSelf, O_Reposition, O_Swap, O_Clear, O_Destroy, O_AssignFrom, O_AssignTo, O_PutAll, O_MoveToTable, O_RemoveAll, O_Intersect, O_EnsureSize, O_EnsureSize, O_ShrinkToFit, O_ShrinkToFit,
-      O_SetAutoSort, O_SetAutoSort, O_MoveToFront, O_MoveToBack, O_MoveToBefore, O_MoveToBehind, O_MoveToPosition, O_PutAtFront,
+      O_EnsureCanPut, O_SetAutoSort, O_SetAutoSort, O_MoveToFront, O_MoveToBack, O_MoveToBefore, O_MoveToBehind, O_MoveToPosition, O_PutAtFront,
       O_Get, O_IndexOfKey, O_IndexOfValue, O_GetKeyAt, O_GetValueAt, O_GetFirstKey, O_GetLastKey, O_GetKeyBefore, O_GetKeyAfter, O_ContainsValue, O_NumItems, O_IsEqualTo,
       O_ItNew, O_ItNew, O_ItNewAt, O_ItAdv, O_ItAdv, O_ItAdv, O_ItAdv, O_ItRet, O_ItFlip, O_ItDel, O_ItCopy};
 
@@ -406,16 +427,17 @@ template<class TableT, class HashF> static int Random(const char * outFile, cons
                case O_Put: case O_PutPrev: case O_PutIfAbsent: case O_GetOrPut: case O_PutAtFront: case O_PutAtBack: a = k1; b = v; break;
                case O_PutOrRemove: a = k1; b = (gen()%3 == 0) ? 0 : v; break;
                case O_PutBefore: case O_PutBehind: a = k1; b = k2; c = v; break;
-               case O_PutAtPosition: a = k1; b = pos; c = v; break;
+               case O_PutAtPosition: a = k1; b = (gen()%5 == 0) ? -1-(long)(gen()%4) : pos; c = v; break;
                case O_GetAndMoveToFront: case O_GetAndMoveToBack: case O_Remove: case O_RemoveGet: case O_MoveToFront: case O_MoveToBack: case O_MoveToTable: case O_Reposition:
                case O_Get: case O_IndexOfKey: case O_GetKeyBefore: case O_GetKeyAfter: a = k1; break;
                case O_MoveToBefore: case O_MoveToBehind: a = k1; b = k2; break;
-               case O_MoveToPosition: a = k1; b = pos; break;
-               case O_EnsureSize: a = (long)(gen()%(K+2)); b = bit; break;
+               case O_MoveToPosition: a = k1; b = (gen()%5 == 0) ? -1-(long)(gen()%4) : pos; break;
+               case O_EnsureSize: a = (gen()%5 == 0) ? -1-(long)(gen()%4) : (long)(gen()%(K+2)); b = bit; break;
+               case O_EnsureCanPut: a = (gen()%4 == 0) ? -1-(long)(gen()%4) : (long)(gen()%3); break;
                case O_SetAutoSort: a = bit; b = (long)(gen()%2); break;
-               case O_ShrinkToFit: a = bit; break;
+               case O_ShrinkToFit: a = (gen()%5 == 0) ? -1-(long)(gen()%4) : bit; break;
                case O_IndexOfValue: a = v; b = bit; break;
-               case O_GetKeyAt: case O_GetValueAt: a = pos; break;
+               case O_GetKeyAt: case O_GetValueAt: a = (gen()%4 == 0) ? -1-(long)(gen()%4) : pos; break;
                case O_ContainsValue: a = v; break;
                case O_IsEqualTo: a = bit; break;
                case O_ItNew: a = slot; b = bit; break;
